@@ -7,6 +7,7 @@ import json
 import os
 import re
 import unicodedata
+import zlib
 
 from harness.engine import tlc as T
 from harness.engine.core import chunks
@@ -236,15 +237,17 @@ def run(ctx):
         same = (ev["obs"]["kind"] == "exc") if rec["fail"] else (ev["obs"]["kind"] == "ok" and ev["obs"]["lines"] == rec["lines"])
         return ev, same and ev["after"] == ev["before"]
 
-    def handle(rec, variant):
+    def handle(rec, fam):
         counts["emitted"] += 1
-        nb = counts["emitted"]
-        case = case_of(rec, ansi=(nb % 2 == 0))
-        if variant == "tag" and any(rec["rows"][0][0]):
+        # variants are chosen by the content of the behaviour (TLC's workers print in no fixed order)
+        h = zlib.crc32(json.dumps([rec["rows"], rec["style"], rec["T"], rec["ind"], rec["al"]]).encode())
+        case = case_of(rec, ansi=(h % 2 == 0))
+        if fam == "draw" and (h // 2) % (16 if quick else 64) == 0 and any(rec["rows"][0][0]):
             case["tagged"] = [1]
             case["runA"] = False
-        if rec["style"] == "ascii" and nb % 3 == 0:
+        if rec["style"] == "ascii" and (h // 128) % 3 == 0:
             case["style"] = "solid"
+        nb = h // 1024
         if rec["ties"] > 0:
             key = json.dumps([rec["n"], rec["hdr"], rec["rows"], rec["style"], rec["T"], rec["ind"], rec["al"]])
             pending.setdefault(key, [case, []])[1].append(rec)
@@ -264,7 +267,7 @@ def run(ctx):
             rec = T.parse_emit(line)
             if rec is None:
                 return False
-            handle(rec, "tag" if _fam == "draw" and counts["emitted"] % 16 == 0 else "")
+            handle(rec, _fam)
             return True
 
         before = counts["emitted"]
